@@ -29,6 +29,28 @@ func init() {
 		i := bmtree.PathToIndex(c05Full(h), w)
 		return L(I32(i), U(bmtree.IndexToPath(h, i)))
 	}
+	// widened: the accessors on IndexToPath's result, the order of two results, PathToIndexLoose on a full tree
+	Exec["bmtree.IndexToPath/fields"] = func(a []V) string {
+		w := bmtree.IndexToPath(a[0].I32(), a[1].I32())
+		return L(I32(bmtree.PathLen(w)), I32(bmtree.PathHeight(w)), U(bmtree.PathBits(w)), U(bmtree.PathMask(w)), Str(bmtree.PathStr(w)))
+	}
+	Exec["bmtree.IndexToPath/order"] = func(a []V) string {
+		h := a[0].I32()
+		wi, wj := bmtree.IndexToPath(h, a[1].I32()), bmtree.IndexToPath(h, a[2].I32())
+		switch {
+		case wi < wj:
+			return "-1"
+		case wi > wj:
+			return "1"
+		}
+		return "0"
+	}
+	Exec["bmtree.PathToIndexLoose/full"] = func(a []V) string {
+		h := a[0].I32()
+		w := c10Word(h, a[1])
+		i, has := bmtree.PathToIndexLoose(c05Full(h), w)
+		return L(I32(i), I32(has), U(bmtree.IndexToPath(h, i)))
+	}
 	Register("C05", genC05)
 }
 
@@ -213,6 +235,26 @@ func c05Sweep(lo, hi int) (uint64, [][2]int64) {
 
 func genC05(g *Gen) {
 	seen := map[[2]int64]bool{}
+	last := map[int]int64{}
+	nfields := 0
+	order := func(h int, i, j int64) {
+		g.Stat("order")
+		key := ""
+		if i != 0 && j != 0 {
+			rel := "eq"
+			if i < j {
+				rel = "lt"
+			} else if i > j {
+				rel = "gt"
+			}
+			near := "far"
+			if d := i - j; d >= -1 && d <= 1 {
+				near = "adjacent"
+			}
+			key = fmt.Sprintf("order/%s/%s/%s", c05HB(h), rel, near)
+		}
+		g.Do("bmtree.IndexToPath/order", L(Int(h), I(i), I(j)), key)
+	}
 	emit := func(h int, idx int64, bucket string) {
 		n := int64(1)<<uint(h+1) - 1
 		if h < 0 || h > 30 || idx < 0 || idx >= n {
@@ -224,7 +266,26 @@ func genC05(g *Gen) {
 		}
 		seen[k] = true
 		g.Stat(bucket)
-		g.Do("bmtree.IndexToPath", L(Int(h), I(idx)), c05Shape(h, idx))
+		sh := c05Shape(h, idx)
+		g.Do("bmtree.IndexToPath", L(Int(h), I(idx)), sh)
+		// widened ops on the same input: always for small trees and boundary cases, 1 in 4 otherwise
+		if h <= 8 || bucket[0] == 'e' && h >= 13 && (nfields%3 == 0) || bucket[0] == 'r' && nfields%4 == 0 {
+			key := ""
+			if sh != "" {
+				key = "fields/" + sh
+			}
+			g.Do("bmtree.IndexToPath/fields", L(Int(h), I(idx)), key)
+		}
+		nfields++
+		// order: against the previous index emitted for this height, the neighbour and itself
+		if prev, ok := last[h]; ok && (h <= 6 || nfields%5 == 0) {
+			order(h, idx, prev)
+			order(h, idx, idx)
+			if idx+1 < n {
+				order(h, idx+1, idx)
+			}
+		}
+		last[h] = idx
 	}
 	inverse := func(h, l int, v uint64, bucket string) {
 		g.Stat(bucket)
@@ -233,6 +294,10 @@ func genC05(g *Gen) {
 			key = "inv/" + c05Shape(h, c05Rank(h, l, v))
 		}
 		g.Do("bmtree.PathToIndex/inverse", L(Int(h), c10Node(v, l)), key)
+		if key != "" {
+			key = "loose" + key[3:]
+		}
+		g.Do("bmtree.PathToIndexLoose/full", L(Int(h), c10Node(v, l)), key)
 	}
 
 	// (1) exhaustive: heights 0..12 x every index (this includes the whole idxToPath table through the API)
@@ -250,7 +315,17 @@ func genC05(g *Gen) {
 			}
 		}
 	}
-	g.Exhaust = append(g.Exhaust, "PathToIndex then IndexToPath: heights 0..8 x every node")
+	g.Exhaust = append(g.Exhaust, "PathToIndex / PathToIndexLoose then IndexToPath: heights 0..8 x every node")
+	// every ordered pair of indices of heights 0..4
+	for h := 0; h <= 4; h++ {
+		n := int64(1)<<uint(h+1) - 1
+		for i := int64(0); i < n; i++ {
+			for j := int64(0); j < n; j++ {
+				order(h, i, j)
+			}
+		}
+	}
+	g.Exhaust = append(g.Exhaust, "order of IndexToPath results: heights 0..4 x every ordered pair of indices; accessors on the result: heights 0..8 x every index")
 
 	// (2) boundaries for heights 13..30: first/last indices, 2^k + d with |d| <= h+1 (the shortcut compares
 	//     index-h with index: carries across bit k change diffbits), all-left / all-right spines
